@@ -616,6 +616,61 @@ def shrink_instance(inst, ob, want, kind_key):
     return cur
 
 
+def _long_chain_job(job):
+    """A sampler OBJECT asked twice: a short call, then a long one (about 1e4-1e5 steps of the walk).  Rounding errors of
+    the recursion are only kept small by the periodic re-projection; every row must satisfy S v = 0 and the bounds with
+    an absolute slack of 1e-6 (ten times the tolerance)."""
+    import warnings
+    import logging
+    warnings.simplefilter("ignore")
+    logging.disable(logging.CRITICAL)
+    import numpy as np
+    from cobra import Metabolite, Model, Reaction
+    from cobra.sampling import OptGPSampler, ACHRSampler
+    m = Model("flux_split")
+    a = Metabolite("A")
+    rs = [Reaction("V1"), Reaction("V2"), Reaction("V3")]
+    for r, ub, c in zip(rs, job["ubs"], (-1, -1, 1)):
+        r.bounds = (0, ub)
+        r.add_metabolites({a: c})
+    m.add_reactions(rs)
+    if job["method"] == "achr":
+        s = ACHRSampler(m, thinning=job["thinning"], seed=job["seed"])
+    else:
+        s = OptGPSampler(m, thinning=job["thinning"], processes=job["processes"], seed=job["seed"])
+    worst, bad = 0.0, 0
+    for n in job["calls"]:
+        v = s.sample(n).values
+        eq = np.abs(v[:, 2] - v[:, 0] - v[:, 1])
+        lo, hi = -v.min(axis=1), (v - np.array(job["ubs"], dtype=float)).max(axis=1)
+        viol = np.maximum(eq, np.maximum(lo, hi))
+        worst = max(worst, float(viol.max()))
+        bad += int((viol > 1e-6).sum())
+    return {"worst_violation": worst, "rows_beyond_1e-6": bad, "rows": sum(job["calls"])}
+
+
+def long_chain_monitor(rep, args):
+    jobs = [{"method": "optgp", "processes": 1, "thinning": 100, "seed": 42, "ubs": [6, 8, 10], "calls": [10, 400]},
+            {"method": "achr", "processes": 1, "thinning": 100, "seed": 42, "ubs": [6, 8, 10], "calls": [10, 400]}]
+    if args.tier != "quick":
+        jobs += [{"method": "optgp", "processes": 2, "thinning": 100, "seed": 42, "ubs": [6, 8, 10], "calls": [10, 1000]},
+                 {"method": "optgp", "processes": 1, "thinning": 50, "seed": 3, "ubs": [5, 5, 7], "calls": [5, 700, 700, 700]},
+                 {"method": "achr", "processes": 1, "thinning": 50, "seed": 3, "ubs": [5, 5, 7], "calls": [5, 700, 700]}]
+    out = {"samplers": len(jobs), "rows": 0, "worst_violation": 0.0, "aborted": 0}
+    for job, (st, res) in zip(jobs, K.map_isolated(_long_chain_job, jobs, chunk=1, timeout=900)):
+        if st != "ok":
+            out["aborted"] += 1
+            continue
+        out["rows"] += res["rows"]
+        out["worst_violation"] = max(out["worst_violation"], res["worst_violation"])
+        if res["rows_beyond_1e-6"]:
+            rep.violation({"monitor": "long-chain", "method": job["method"]},
+                          {"failed": "rows of a later sample() call of the same sampler object violate S v = 0 / the bounds "
+                                     "by more than 1e-6", "sampler": job, "result": res,
+                           "how_to_read": "harness/c16.py: _long_chain_job(sampler) builds the model V3 -> A -> V1 + V2"})
+    return out
+
+
 def main(argv=None):
     args = K.parse_args(argv)
     rep = K.Reporter(PROP, args.tier, args.seed)
@@ -731,6 +786,7 @@ def main(argv=None):
             "instances": len(instances),
             "input_distribution": dist,
             "broken_obligations": broken,
+            "long_chain_monitor": long_chain_monitor(rep, args) if not args.replay else {},
         },
         "assumptions": ["partial: IEEE rounding, numpy RNG, SVD null space and re-projection are outside the model; "
                         "the invariant theorems are about exact arithmetic with arbitrary draws",
